@@ -170,7 +170,7 @@ def _(u):
 def _(u):
     B, N, T = u.dims("B N T")
     u.requires(T >= 2)  # a completed OP episode has at least two steps (done needs i > 0)
-    td = u.td(B, prize=((B, N + 1), "f"))
+    td = state(u, B, N)          # the whole state with arbitrary bookkeeping fields: the reward depends on prizes and actions only
     act = u.tensor("actions", (B, T), "i")
     u.requires(u.forall((B, T), lambda b, t: AND(act.at(b, t) >= 0, act.at(b, t) <= N)))
     u.requires(u.forall((B,), lambda b: td["prize"].at(b, 0) == 0))
@@ -213,7 +213,7 @@ def _(u):
     env = u.obj(F, "OPEnv")
 
     def mk_in(u, B):
-        return {"td": u.td(B, prize=((B, N + 1), "f")), "actions": u.tensor("actions", (B, T), "i")}
+        return {"td": state(u, B, N), "actions": u.tensor("actions", (B, T), "i")}
 
     def req(u, ins, B):
         a = ins["actions"]
